@@ -61,8 +61,25 @@ OVERRIDES = {
 }
 
 
+# Defaults that the documentation states in numbers: the bundled spec files list them as the
+# values used when a key is omitted ("Default values for simulation parameters are given
+# below", "A-type by default") and the DefaultParams field docs cite their sources.
+DOCUMENTED_DEFAULTS = {
+    "stress_exponent": 1.5,
+    "deformation_exponent": 3.5,
+    "gbm_mobility": 125,
+    "gbs_threshold": 0.3,
+    "nucleation_efficiency": 5.0,
+    "initial_olivine_fabric": _core.MineralFabric.olivine_A,
+    "phase_assemblage": (_core.MineralPhase.olivine,),
+    "phase_fractions": (1.0,),
+}
+
+
 def check_record(case):
     d = sut(_core.DefaultParams)
+    for k, v in DOCUMENTED_DEFAULTS.items():
+        require(getattr(d, k) == v, f"DefaultParams.{k} = {getattr(d, k)!r}, documented default is {v!r}")
     require(dataclasses.is_dataclass(d), "DefaultParams is not a dataclass")
     require(isinstance(hash(d), int), "DefaultParams not hashable")
     for name in list(d.as_dict()):
